@@ -71,7 +71,37 @@ func c11RawView(pj *simdjson.ParsedJson) string {
 		// the same on both sides of a round trip
 		b.WriteByte(byte(w >> 56))
 	}
+	// every maximal run of deleted entries must count down to 1 (a reader lands on any of them)
+	for i := 0; i < len(pj.Tape); {
+		if byte(pj.Tape[i]>>56) != 'N' {
+			i++
+			continue
+		}
+		j := i
+		for j < len(pj.Tape) && byte(pj.Tape[j]>>56) == 'N' {
+			j++
+		}
+		for k := i; k < j; k++ {
+			if skip := pj.Tape[k] & 0xffffffffffffff; skip == 0 || skip > uint64(j-k) {
+				fmt.Fprintf(&b, " [deleted entry %d of run %d..%d has skip %d]", k, i, j, skip)
+			}
+		}
+		i = j
+	}
 	b.WriteString(" | ")
+	// a top-level Advance loop must come to an end (bracketed: a call that never returns is
+	// decided by the processor-time budget)
+	armCall()
+	walk.Guard(func() error {
+		it := pj.Iter()
+		n := 0
+		for it.Advance() != simdjson.TypeNone && n <= len(pj.Tape)+2 {
+			n++
+		}
+		fmt.Fprintf(&b, "%d top-level values | ", n)
+		return nil
+	})
+	disarmCall()
 	walk.Guard(func() error {
 		it := pj.Iter()
 		text, err := it.MarshalJSON()
